@@ -433,9 +433,12 @@ class LockCheck(Check):
 
 
 class C01(LockCheck):
-    lean_module = 'CppUtil.Props.C01'
+    lean_module = 'CppUtil.Props.C01Client'
     theorems = ['CppUtil.Props.c01_pess', 'CppUtil.Props.c01_opt', 'CppUtil.Props.c01_word_counts_pess',
                 'CppUtil.Props.c01_word_counts_opt', 'CppUtil.WLock.pess_specs', 'CppUtil.WLock.opt_specs',
+                # guard level: owning guards on one lock are of compatible classes (guard algebra + lock theorem)
+                'CppUtil.Props.c01_client_guards_compatible_pess', 'CppUtil.Props.c01_client_guards_compatible_opt',
+                'CppUtil.WClient.reachable_locks',
                 'CppUtil.Props.c01_mcs', 'CppUtil.Props.mcs_invariant', 'CppUtil.Props.mcs_publish_is_rmw',
                 'CppUtil.Props.McsWordsGen.wordSpecs']
     extra_modules = ['CppUtil.Props.McsBits']
